@@ -270,12 +270,12 @@ impl<F: Float, R: Rng + Clone, DA: Data<Elem = F>, T, D: Distance<F>>
             // over the n runs of the KMeans algorithm.
             if inertia < min_inertia {
                 min_inertia = inertia;
-                best_centroids = Some(centroids.clone());
+                best_centroids = Some((centroids.clone(), memberships.clone()));
             }
         }
 
         match best_centroids {
-            Some(centroids) => {
+            Some((centroids, memberships)) => {
                 let mut cluster_count = Array1::zeros(self.n_clusters());
                 memberships
                     .iter()
